@@ -41,6 +41,8 @@ type Outcome struct {
 	Counters map[string]int
 	// Skip marks a case that is outside the property's quantifier (e.g. incompatible configuration).
 	Skip bool
+	// Incomplete marks a case whose internal enumeration hit a cap: the run is then not reported as exhaustive.
+	Incomplete bool
 }
 
 // Case is one enumerated execution.
@@ -225,6 +227,10 @@ func Main(t *testing.T, property string, cases []Case, params map[string]any) {
 			}
 		}
 		res.Ran++
+		if o.Incomplete {
+			res.Exhaustive = false
+			res.Counters["cases_capped"]++
+		}
 		if o.Skip {
 			res.Skipped++
 			continue
